@@ -84,6 +84,6 @@ func main() {
 		},
 		Scenarios:      scenarios,
 		QuickBudget:    150 * time.Second,
-		ThoroughBudget: 20 * time.Minute,
+		ThoroughBudget: 30 * time.Minute,
 	})
 }
